@@ -370,7 +370,7 @@ def make_jobs(tier, seed, build):
     for gname in GRAMMARS:
         g = CORPUS[gname]
         nmax = 3 if tier == "quick" else 4
-        shapes = list(tok.all_shapes_by_words(nmax, g.decl))
+        shapes = list(tok.all_shapes_by_words(nmax, g.decl, full_upto=3))
         if gname == "k5" and tier == "quick":
             # the smallest interrupted block with something to its left needs 4 words
             shapes += [("word",) + t for t in __import__("itertools").product(("short", "long", "short=", "long="), repeat=3)]
